@@ -467,11 +467,12 @@ pub fn finish_counters(out: &mut Outcome, run: &Run) {
     if run.get("probes") != 0 && run.ops.iter().any(|o| o.name == "probe") {
         out.bump("K3_probes");
     }
-    if seam::buggify_fired(1) + seam::buggify_fired(2) > 0 {
+    if seam::buggify_fired(1) + seam::buggify_fired(2) + seam::buggify_fired(4) > 0 {
         out.bump("K4_buggify");
     }
     out.count("K4_compression_skipped", seam::buggify_fired(1));
     out.count("K4_fastpath_skipped", seam::buggify_fired(2));
+    out.count("K4_merge_direction_flipped", seam::buggify_fired(4));
     if run.get("old_handles") != 0 || run.get("nodewise") != 0 || run.get("naming") != 0 {
         out.bump("K5_client_schedule");
     }
@@ -727,7 +728,7 @@ impl Check for FireCheck {
             run.set("stride_seed", (f.next() >> 1) as i64);
         }
         if f.chance(1, 4) {
-            run.set("buggify_mask", 1 + f.below(3) as i64);
+            run.set("buggify_mask", 1 + f.below(7) as i64);
             run.set("buggify_seed", (f.next() >> 1) as i64);
         }
         if f.chance(3, 10) {
